@@ -3,7 +3,6 @@ import MythVerif.Proofs.WsQueueTsoBnd
 namespace MythVerif.WsqTso
 open MythVerif.Wsq
 
-set_option maxHeartbeats 4000000 in
 theorem bO_cll (s s' : St) : Inv s → Inv s' → Bnd s → s.opc = .cll → stepO s = some s' → Bnd s' := by
   intro h h' hb hpc hs
   have hcfg := h.cfg
@@ -25,7 +24,6 @@ theorem bO_cll (s s' : St) : Inv s → Inv s' → Bnd s → s.opc = .cll → ste
       (try simp only [hpc, upd_apply, applySto] at hold ⊢)
       first | assumption | (intros; contradiction) | grind [thiefLocked, mayBuf, notTrans, thiefFlight, popWin, rcOff_bnd, Rc1Shape, Rc2Shape, RcPre, RcShape, InsShape, Pu2Shape, CarryShape] | skip)))
 
-set_option maxHeartbeats 4000000 in
 theorem bO_cl1 (s s' : St) : Inv s → Inv s' → Bnd s → s.opc = .cl1 → stepO s = some s' → Bnd s' := by
   intro h h' hb hpc hs
   have hcfg := h.cfg
@@ -47,7 +45,6 @@ theorem bO_cl1 (s s' : St) : Inv s → Inv s' → Bnd s → s.opc = .cl1 → ste
       (try simp only [hpc, upd_apply, applySto] at hold ⊢)
       first | assumption | (intros; contradiction) | grind [thiefLocked, mayBuf, notTrans, thiefFlight, popWin, rcOff_bnd, Rc1Shape, Rc2Shape, RcPre, RcShape, InsShape, Pu2Shape, CarryShape] | skip)))
 
-set_option maxHeartbeats 4000000 in
 theorem bO_cl2 (s s' : St) : Inv s → Inv s' → Bnd s → s.opc = .cl2 → stepO s = some s' → Bnd s' := by
   intro h h' hb hpc hs
   have hcfg := h.cfg
@@ -69,7 +66,6 @@ theorem bO_cl2 (s s' : St) : Inv s → Inv s' → Bnd s → s.opc = .cl2 → ste
       (try simp only [hpc, upd_apply, applySto] at hold ⊢)
       first | assumption | (intros; contradiction) | grind [thiefLocked, mayBuf, notTrans, thiefFlight, popWin, rcOff_bnd, Rc1Shape, Rc2Shape, RcPre, RcShape, InsShape, Pu2Shape, CarryShape] | skip)))
 
-set_option maxHeartbeats 4000000 in
 theorem bO_cl3 (s s' : St) : Inv s → Inv s' → Bnd s → s.opc = .cl3 → stepO s = some s' → Bnd s' := by
   intro h h' hb hpc hs
   have hcfg := h.cfg
